@@ -4,6 +4,13 @@ set_option linter.unusedVariables false
 /-! Round trip of the framing: capability TLVs, optional parameters (both formats), fixed part. -/
 namespace Exa.Open
 
+instance {ε α : Type} [DecidableEq ε] [DecidableEq α] : DecidableEq (Except ε α) := fun a b =>
+  match a, b with
+  | .ok x, .ok y => if h : x = y then isTrue (by rw [h]) else isFalse (by intro e; cases e; exact h rfl)
+  | .error x, .error y => if h : x = y then isTrue (by rw [h]) else isFalse (by intro e; cases e; exact h rfl)
+  | .ok _, .error _ => isFalse (by intro e; cases e)
+  | .error _, .ok _ => isFalse (by intro e; cases e)
+
 theorem walkCaps_nil (fuel : Nat) : walkCaps fuel [] = .ok [] := by
   cases fuel <;> simp [walkCaps]
 
